@@ -130,7 +130,8 @@ type BinaryCopyReader struct {
 	scanners []Scanner
 	buffer   []byte // received but not yet consumed bytes of the copy-in stream
 	started  bool   // the (optional) file header has been handled
-	done     bool   // the end of the copy-in stream has been reached
+	ended    bool   // the client has ended the copy-in stream (CopyDone)
+	done     bool   // the end of the data has been reported
 }
 
 // need makes sure that at least n bytes of the copy-in stream are buffered. The
@@ -140,14 +141,18 @@ type BinaryCopyReader struct {
 // io.ErrUnexpectedEOF if the stream ends in the middle of the requested bytes.
 func (r *BinaryCopyReader) need(n int) error {
 	for len(r.buffer) < n {
-		err := r.reader.Read()
-		if err == io.EOF {
-			r.done = true
+		if r.ended {
 			if len(r.buffer) == 0 {
 				return io.EOF
 			}
 
 			return io.ErrUnexpectedEOF
+		}
+
+		err := r.reader.Read()
+		if err == io.EOF {
+			r.ended = true
+			continue
 		}
 
 		if err != nil {
@@ -225,6 +230,10 @@ func (r *BinaryCopyReader) Read(ctx context.Context) (_ []any, err error) {
 	}
 
 	err = r.need(2)
+	if err == io.EOF {
+		r.done = true
+	}
+
 	if err != nil {
 		return nil, err
 	}
